@@ -267,14 +267,12 @@ pub struct Universe {
     pub vals: Vec<R>,
     /// the bounded-exhaustive list was included completely
     pub exhaustive: bool,
-    pub enumerated: usize,
 }
 
 /// `n` values for a shape: the exhaustive list if it fits into 3n/4 (otherwise a seeded sample of it
 /// that always keeps the first and last entries), filled up with random larger values.
 pub fn universe(sh: &Sh, n: usize, rng: &mut Rng) -> Universe {
     let ex = enumerate(sh, 0);
-    let enumerated = ex.len();
     let quota = (n * 3 / 4).max(1);
     let mut seen: BTreeSet<R> = BTreeSet::new();
     let mut vals = vec![];
@@ -306,5 +304,5 @@ pub fn universe(sh: &Sh, n: usize, rng: &mut Rng) -> Universe {
             vals.push(r);
         }
     }
-    Universe { vals, exhaustive, enumerated }
+    Universe { vals, exhaustive }
 }
